@@ -223,6 +223,15 @@ def rule_repaint(ctx: Ctx) -> RuleResult:
         dom = any(t.kind == "test" and t is not n and any(isinstance(x, ast.Attribute) and x.attr == "screen_buf" for x in ast.walk(t.ast)) and n not in ExcEngine._reach_without_edge(cfg, t, "T") for t in cfg.nodes)
         if not (own or dom):
             rr.add(finding("INV", ds, n.stmt, f"`{norm(n.ast, 60)}` skips the draw because the canvas object is the one drawn last, without consulting screen_buf: after clear(), a resize or stop/start (which reset screen_buf because the terminal no longer shows that canvas) the same canvas is never repainted", construct="identity shortcut ignores screen_buf"))
+    # partial-screen mode moves relatively to the row the terminal cursor was left on (_cy): it has to be recorded on
+    # every path that reaches the write loop, with or without a canvas cursor
+    cy_stores = [n for n in cfg.nodes if isinstance(n.ast, ast.Assign) and any(isinstance(t, ast.Attribute) and t.attr == "_cy" for t in n.ast.targets)]
+    content_heads = [h for h in cfg.nodes if h.kind == "for" and "content" in ast.unparse(h.ast.iter)]
+    rr.inst("cursor row recorded on every path", True, {"_cy_stores": [norm(n.stmt, 30) for n in cy_stores]})
+    if content_heads and writes:
+        after = cfg.reachable_from_edges([(content_heads[0], "F")], avoid=cy_stores)
+        if any(w in after for w in writes):
+            rr.add(finding("INV", ds, (cy_stores[0].stmt if cy_stores else ds.node), "the output can be written without self._cy being updated (the path for a canvas without a cursor): in partial-screen mode the next draw starts its relative cursor moves from a stale row and paints rows on the wrong lines", construct="_cy not recorded on every path to the write"))
     # a resize signalled while the canvas content was being walked: the output computed for the old size must not be
     # written nor remembered - `self._resized` is tested again after the content loop
     content_loops = [h for h in cfg.nodes if h.kind == "for" and "content" in ast.unparse(h.ast.iter)]
@@ -405,6 +414,7 @@ def run(ctx: Ctx):
 _RW = "urwid/display/_raw_display_base.py"
 _HT = "urwid/display/html_fragment.py"
 MUTANTS = [
+    Mut("cursor-row-only-with-cursor", _RW, "urwid.display._raw_display_base.Screen.draw_screen", "            self._cy = y\n        else:\n            # without a cursor the terminal stays on the row painted last\n            self._cy = cy\n", "            self._cy = y\n", "INV|display._raw_display_base.Screen.draw_screen|_cy not recorded"),
     Mut("palette-update-without-repaint", _RW, "urwid.display._raw_display_base.Screen._on_update_palette_entry", "        # rows drawn with the old meaning of this name are no longer what the terminal should show\n        self.clear()\n", "", "INV|display._raw_display_base.Screen._on_update_palette_entry"),
     Mut("identity-shortcut-ignores-clear", _RW, "urwid.display._raw_display_base.Screen.draw_screen", "if self.screen_buf and canvas is self._screen_buf_canvas:", "if canvas is self._screen_buf_canvas:", "INV|display._raw_display_base.Screen.draw_screen|identity shortcut"),
     Mut("html-cursor-by-characters", _HT, "HtmlGenerator.draw_screen", "run_width = str_util.calc_width(t_run, 0, len(t_run))", "run_width = len(t_run)", "KIND|display.html_fragment.HtmlGenerator.draw_screen"),
